@@ -41,7 +41,7 @@ ASSUMPTIONS = [
 ]
 CLASSES = ["conserve/whfast", "conserve/saba", "conserve/eos", "conserve/leapfrog", "conserve/janus", "conserve/ias15",
            "conserve/bs", "conserve/mercurius", "conserve/trace", "conserve/deferred_sync", "conserve/boost",
-           "conserve/backward", "merge/mergers=0", "merge/mergers=1", "merge/mergers=2", "merge/mergers>=3",
+           "conserve/backward", "conserve/gravity=compensated", "merge/mergers=0", "merge/mergers=1", "merge/mergers=2", "merge/mergers>=3",
            "diagnostics/zero_mass", "diagnostics/all_massless", "mirror/ias15", "mirror/bs", "mirror/bitwise_mirror"]
 
 EPS = 2.0 ** -52
@@ -321,18 +321,30 @@ def jacobi_few_body(draw, nmin=3, nmax=4):
 
 ANY_CFG = st.one_of(S.integrator_config(), S.integrator_config(), whfast_by_coordinates())
 
+# gravity routine, where the integrator leaves the choice to the user (docs/gravity.md): set after the integrator
+GRAVITY = st.sampled_from(["basic", "basic", "compensated"])
+
+
+def gravity_is_users_choice(cfg):
+    fam = cfg["family"]
+    sets = dict((a, b) for a, b in cfg["set"])
+    if fam == "whfast":
+        return sets.get("ri_whfast.kernel", "default") == "default"
+    return fam in ("saba", "leapfrog", "ias15", "bs", "janus", "eos")
+
+
 conserve_case = st.one_of(
     st.fixed_dictionaries({
         "system": S.hierarchical_system(nmin=2, nmax=5), "cfg": ANY_CFG,
-        "dt_frac": S.logfloats(2e-3, 0.05), "back": st.booleans(), "boost": boost,
+        "dt_frac": S.logfloats(2e-3, 0.05), "back": st.booleans(), "boost": boost, "gravity": GRAVITY,
         "ops": st.lists(op, min_size=3, max_size=8)}),
     st.fixed_dictionaries({
         "system": S.hierarchical_system(nmin=3, nmax=5), "cfg": ANY_CFG,
-        "dt_frac": S.logfloats(2e-3, 0.05), "back": st.booleans(), "boost": boost,
+        "dt_frac": S.logfloats(2e-3, 0.05), "back": st.booleans(), "boost": boost, "gravity": GRAVITY,
         "ops": st.lists(op, min_size=3, max_size=8)}),
     st.fixed_dictionaries({
         "system": jacobi_few_body(), "cfg": S.integrator_config(NON_WH),
-        "dt_frac": S.logfloats(2e-3, 0.03), "back": st.booleans(), "boost": boost,
+        "dt_frac": S.logfloats(2e-3, 0.03), "back": st.booleans(), "boost": boost, "gravity": GRAVITY,
         "ops": st.lists(op, min_size=3, max_size=8)}),
 )
 
@@ -352,6 +364,11 @@ def run_conserve(case, ctx):
     bst = usable_boost(case, ctx)
     sim = rb.new_sim({"G": sysd["G"], "particles": boosted(sysd["particles"], bst, sysd["P_min"])})
     apply_cfg(sim, cfg)
+    grav = case.get("gravity", "basic")
+    if grav != "basic" and gravity_is_users_choice(cfg):
+        sim.gravity = grav
+    else:
+        grav = None
     dirn = -1.0 if case["back"] else 1.0
     if fam == "trace" and dirn < 0 and ctx.finding_open("C04-trace-backward"):
         ctx.excluded("C04-trace-backward")
@@ -398,6 +415,9 @@ def run_conserve(case, ctx):
         tr.check("after op %d %s of %s" % (oi, list(o), [list(x) for x in case["ops"]]))
         ncheck += 1
     ctx.cls(fam)
+    if grav and sim.gravity == grav:        # some schemes select their own routine at the first step (EOS, SABA correctors)
+        ctx.cls("gravity=%s" % grav)
+        ctx.cls("gravity=%s/%s" % (grav, tr.label))
     if bst:
         ctx.cls("boost")
     if dirn < 0:
